@@ -19,8 +19,8 @@
 using namespace SimTK;
 using ref::LD;
 
-static const double TOL = 2e-8;        // relative to (power terms + |PE|); calibration in notes/C12.md
-static const double FD_AGREE = 2e-8;   // Richardson pair must agree to this (same normalisation) or the case is skipped and counted
+static const double TOL = 1e-7;        // relative to (power terms + |PE| + parameter floor); worst on the unchanged tree 2.9e-10 (notes/C12.md)
+static const double FD_AGREE = 1e-7;   // Richardson pair must agree to this (same normalisation) or the case is skipped and counted
 static const LD H = 2e-3L;
 
 struct Unit { int host, elem, pset, attach; };
@@ -168,12 +168,12 @@ int main(int argc, char** argv) {
     verif::Run run("C12", argc, argv);
     run.setDeadline(300, 2400);
     const bool th = run.thorough();
-    run.rule = "E3: case = (host tree of 3, force element, parameter set, attachment, state kind, value set); every tuple of the force alphabet is built and evaluated. distinct = distinct tuple; non-trivial = some power term, energy derivative or generalized-force component is non-zero";
-    run.assumptions = {"continuous values only from the fixed tables of engine/models.h and engine/forcemodels.h", "body velocities and qdot = N u are the library's velocity kinematics (checked by C03/C04)", "finite differences: 4th-order central, h = 2e-3 and 1e-3 must agree to 2e-8 (normalised) or the case is skipped and counted", "contact elements and CableSpring are covered by C37 / C45, not here", "quaternion hosts: the straight-line path q + t*qdot leaves the unit sphere at second order; the library normalises quaternions, first derivatives are unaffected"};
-    for (int h = 0; h < fm::NHOST; ++h) { std::string why; if (!fm::checkHostTables(h, &why)) { run.harnessError(why); return run.finish(); } }
+    run.rule = "E3: case = (host tree of 3 bodies (3 trees; thorough 5), force element, parameter set, attachment, state kind, value set); every tuple of the force alphabet is built and evaluated. distinct = distinct tuple; non-trivial = some power term, energy derivative or generalized-force component is non-zero";
+    run.assumptions = {"continuous values only from the fixed tables of engine/models.h and engine/forcemodels.h", "body velocities and qdot = N u are the library's velocity kinematics (checked by C03/C04)", "finite differences: 4th-order central, h = 2e-3 and 1e-3 must agree to 1e-7 (normalised) or the case is skipped and counted", "contact elements and CableSpring are covered by C37 / C45, not here", "quaternion hosts: the straight-line path q + t*qdot leaves the unit sphere at second order; the library normalises quaternions, first derivatives are unaffected"};
+    for (int h = 0; h < fm::NHOST_ALL; ++h) { std::string why; if (!fm::checkHostTables(h, &why)) { run.harnessError(why); return run.finish(); } }
     std::vector<int> valueSets = th ? std::vector<int>{0, 1, 2} : std::vector<int>{(int)(((run.seed % 3) + 3) % 3)};
     std::vector<Unit> units;
-    for (int h = 0; h < fm::NHOST; ++h) for (int e = 0; e < fm::NELEM; ++e) for (int p = 0; p < fm::numParamSets(e); ++p) for (int a = 0; a < fm::numAttachments(h, e); ++a) units.push_back({h, e, p, a});
+    for (int h = 0; h < (th ? fm::NHOST_ALL : fm::NHOST); ++h) for (int e = 0; e < fm::NELEM; ++e) for (int p = 0; p < fm::numParamSets(e); ++p) for (int a = 0; a < fm::numAttachments(h, e); ++a) units.push_back({h, e, p, a});
     verif::Odometer od; od.dim("state", 4); od.dim("valueset", (int64_t)valueSets.size()); od.dim("unit", (int64_t)units.size());
     run.parallel("alphabet", od.size(), [&](int64_t idx) {
         auto d = od.digits(idx); const Unit& u = units[d[2]];
